@@ -61,6 +61,7 @@ inline void on_fatal(int code) {
   child_write(oc, buf);
 }
 inline void on_alarm(int) { child_write(OC_TIMEOUT, "wall-clock alarm"); _exit(47); }
+inline void on_crash(int sig) { child_write(OC_SIGNAL, "killed by signal " + std::to_string(sig)); _exit(48); }
 } // namespace vx
 extern "C" void __asan_on_error() { vx::child_write(vx::OC_ASAN, "AddressSanitizer report"); }
 namespace vx {
@@ -68,6 +69,7 @@ namespace vx {
 struct Config {
   int bound = 2;          // preemption bound (bounded mode)
   bool sleep = false;     // unbounded search with sleep sets
+  bool delay = false;     // delay bounding: every non-default choice costs one deviation (also at blocking points)
   int spurious = 0;       // spurious wake-ups allowed per execution (bounded mode), each counts as one deviation
   long maxexec = -1;      // cap on executions (-1: none)
   double deadline_s = -1; // wall-clock cap
@@ -106,6 +108,9 @@ inline Exec run_one(const std::vector<int> &prefix, const Config &cfg, const Sce
     vs_horizon = cfg.horizon;
     vs_on_fatal = on_fatal;
     signal(SIGALRM, on_alarm);
+#if !defined(__SANITIZE_ADDRESS__)
+    signal(SIGSEGV, on_crash); signal(SIGBUS, on_crash); signal(SIGFPE, on_crash); signal(SIGABRT, on_crash); signal(SIGILL, on_crash);
+#endif
     alarm(cfg.alarm_s);
     sc(obs);
     child_write(OC_OK, "");
@@ -185,13 +190,13 @@ struct Explorer {
     std::vector<int> pre(x.pts.size() + 1, 0);
     for (size_t i = 0; i < x.pts.size(); i++) {
       const vs_pt_t &p = x.pts[i];
-      pre[i + 1] = pre[i] + ((p.chosen_idx >= p.spur_from || (p.cur_enabled && p.chosen_idx != 0)) ? 1 : 0);
+      pre[i + 1] = pre[i] + ((p.chosen_idx >= p.spur_from || ((p.cur_enabled || cfg.delay) && p.chosen_idx != 0)) ? 1 : 0);
     }
     for (size_t i = prefix.size(); i < x.pts.size(); i++) {
       const vs_pt_t &p = x.pts[i];
       for (int alt = p.chosen_idx + 1; alt < p.nen; alt++) {
         if (!cfg.sleep) {
-          int cost = pre[i] + ((alt >= p.spur_from || p.cur_enabled) ? 1 : 0);
+          int cost = pre[i] + ((alt >= p.spur_from || p.cur_enabled || cfg.delay) ? 1 : 0);
           if (cost > cfg.bound) continue;
         }
         if (depth == 0 && cfg.nshards > 1) {
